@@ -310,7 +310,8 @@ var genericTupleKind = registerKind(300, reflect.TypeOf((*GenericTuple)(nil)))
 // Kind returns a number that is unique for each major kind of Value.
 func (t *GenericTuple) Kind() int {
 	if t.Count() == 1 {
-		if x, ok := t.Get(negateTag); ok {
+		// A wrapper around a wrapper is an ordinary tuple: -x.Kind() would collide with a real kind.
+		if x, ok := t.Get(negateTag); ok && x.Kind() > 0 {
 			return -x.Kind()
 		}
 	}
@@ -328,7 +329,7 @@ func (t *GenericTuple) Less(v Value) bool {
 	if t.Kind() != v.Kind() {
 		return t.Kind() < v.Kind()
 	}
-	if t.Count() == 1 {
+	if t.Kind() < 0 {
 		if x, ok := t.Get(negateTag); ok {
 			u := v.(Tuple)
 			if u.Count() != 1 {
